@@ -296,53 +296,68 @@ func funcToList(kv KVPair, args []Expression, ctx *ExecuteCtx) (any, error) {
 		return []int64{}, nil
 	}
 
-	first, err := args[0].Execute(kv, ctx)
-	if err != nil {
-		return nil, err
-	}
-	useInt := false
-	useStr := false
-	switch fval := first.(type) {
-	case string:
-		if _, err := strconv.ParseInt(fval, 10, 64); err == nil {
-			useInt = true
-		} else if _, err := strconv.ParseFloat(fval, 64); err == nil {
-			useInt = false
-		} else {
-			useStr = true
-		}
-	case []byte:
-		if _, err := strconv.ParseInt(string(fval), 10, 64); err == nil {
-			useInt = true
-		} else if _, err := strconv.ParseFloat(string(fval), 64); err == nil {
-			useInt = false
-		} else {
-			useStr = true
-		}
-	case int, uint, int32, uint32, int64, uint64:
-		useInt = true
-	case float32, float64:
-		useInt = false
-	}
-	if useStr {
-		return funcStrList(kv, args, ctx)
-	}
-	if useInt {
-		return funcIntList(kv, args, ctx)
-	}
-	return funcFloatList(kv, args, ctx)
-}
-
-func funcStrList(kv KVPair, args []Expression, ctx *ExecuteCtx) (any, error) {
-	ret := make([]string, len(args))
+	// The element type is the narrowest one that holds every argument:
+	// integers, else numbers, else text. Deciding by the first argument
+	// alone turned list('1', 'a') into [1, 0].
+	const (
+		kindInt = iota
+		kindFloat
+		kindStr
+	)
+	kind := kindInt
+	vals := make([]any, len(args))
 	for i := 0; i < len(args); i++ {
 		val, err := args[i].Execute(kv, ctx)
 		if err != nil {
 			return nil, err
 		}
-		ret[i] = toString(val)
+		vals[i] = val
+		ekind := kindStr
+		switch eval := val.(type) {
+		case string:
+			ekind = listTextKind(eval)
+		case []byte:
+			ekind = listTextKind(string(eval))
+		case int, uint, int32, uint32, int64, uint64:
+			ekind = kindInt
+		case float32, float64:
+			ekind = kindFloat
+		}
+		if ekind > kind {
+			kind = ekind
+		}
+	}
+	switch kind {
+	case kindStr:
+		ret := make([]string, len(vals))
+		for i, val := range vals {
+			ret[i] = toString(val)
+		}
+		return ret, nil
+	case kindInt:
+		ret := make([]int64, len(vals))
+		for i, val := range vals {
+			ret[i] = toInt(val, 0)
+		}
+		return ret, nil
+	}
+	ret := make([]float64, len(vals))
+	for i, val := range vals {
+		ret[i] = toFloat(val, 0.0)
 	}
 	return ret, nil
+}
+
+// listTextKind tells what a text element of list() reads as: 0 an integer,
+// 1 a number, 2 plain text.
+func listTextKind(val string) int {
+	if _, err := strconv.ParseInt(val, 10, 64); err == nil {
+		return 0
+	}
+	if _, err := strconv.ParseFloat(val, 64); err == nil {
+		return 1
+	}
+	return 2
 }
 
 func funcLen(kv KVPair, args []Expression, ctx *ExecuteCtx) (any, error) {
